@@ -126,6 +126,7 @@ RET_RANGE_BY_NAME = {
 }
 
 
+CHECKED_OPS = ("checked_pow", "checked_add", "checked_sub", "checked_mul")
 _IN_PROGRESS = []
 
 
@@ -336,6 +337,38 @@ class Analysis:
                 return out if n else None
             t = src["term"]
             c = callee_of(t)
+        if c and c["krate"] == "core" and c.get("name") in CHECKED_OPS and t.get("dest") and len(t["a"]) == 2:
+            # Some payload of checked integer arithmetic: the exact result, which fits the type on that edge
+            import re as _re
+            m = _re.search(r"Option<([iu](?:8|16|32|64|128|size))>", f.local_ty(t["dest"][0]))
+            tr = type_range(m.group(1)) if m else None
+            x = self.eval_op(f, t["a"][0], pos, env, depth + 1, stack)
+            y = self.eval_op(f, t["a"][1], pos, env, depth + 1, stack)
+            if tr is None or x is None or y is None:
+                return tr
+            op = c["name"]
+            try:
+                if op == "checked_pow":
+                    if x[0] < 0 or y[0] < 0:
+                        return tr
+                    lo = x[0] ** min(y[0], 130) if x[0] > 1 else (x[0] if y[0] > 0 else 1)
+                    hi = tr[1] if (x[1] > 1 and y[1] > 130) else x[1] ** y[1]
+                    if x[0] <= 1:
+                        lo = min(lo, 0 if x[0] == 0 and y[1] > 0 else 1)
+                    r = (lo, hi)
+                elif op == "checked_add":
+                    r = (x[0] + y[0], x[1] + y[1])
+                elif op == "checked_sub":
+                    r = (x[0] - y[1], x[1] - y[0])
+                elif op == "checked_mul":
+                    cs = [x[0] * y[0], x[0] * y[1], x[1] * y[0], x[1] * y[1]]
+                    r = (min(cs), max(cs))
+                else:
+                    return tr
+            except OverflowError:
+                return tr
+            r = meet(r, tr)
+            return r if r and r[0] <= r[1] else tr
         if not c or c["krate"] in ("core", "alloc", "std"):
             return None
         targets = self.p.call_targets(c)
@@ -587,6 +620,26 @@ class Analysis:
             if f.is_cleanup(bi):
                 continue
             c = callee_of(t)
+            if c and c["krate"] == "core" and t.get("dest") and c.get("name") in ("checked_pow", "try_from", "try_into"):
+                # core knowledge: `b.checked_pow(root)` is Some only while b^root fits; an integer `try_from(root)` is Ok only in range
+                import re as _re
+                dty = f.local_ty(t["dest"][0])
+                m = _re.search(r"(?:Option|Result)<([iu](?:8|16|32|64|128|size))\b", dty)
+                tr2 = type_range(m.group(1)) if m else None
+                checks = f.result_checks(bi) if tr2 else []
+                pe = [e for ch in checks for e in ch["pass_edges"]]
+                if pe and c["name"] == "checked_pow" and len(t["a"]) == 2 and is_root(t["a"][1]):
+                    bv = self.eval_op(f, t["a"][0], (bi, f.INF - 1), env, depth + 1, stack)
+                    if bv is not None and bv[0] >= 2:
+                        k = 0
+                        while bv[0] ** (k + 1) <= tr2[1]:
+                            k += 1
+                        facts.append((pe, "Le", (k, k)))
+                elif pe and c["name"] in ("try_from", "try_into") and len(t["a"]) == 1 and is_root(t["a"][0]) and \
+                        type_range(f.local_ty(op_local(t["a"][0])) if op_local(t["a"][0]) is not None else "") is not None:
+                    facts.append((pe, "Ge", (tr2[0], tr2[0])))
+                    facts.append((pe, "Le", (tr2[1], tr2[1])))
+                continue
             if not c or c["krate"] in ("core", "alloc", "std"):
                 continue
             idxs = [i for i, a in enumerate(t["a"]) if is_root(a)]
